@@ -11,7 +11,7 @@ from vf.model_scipp import DTypeError, DimensionError
 from vf.units import UnitError, NAMED, symbolic_unit
 
 MOD = 'conversion.beamline'
-CATCH = (UnitError, DTypeError, DimensionError, ValueError, TypeError)
+CATCH = (Exception,)     # whatever the code under verification raises is a path end (engine signals are re-raised by explore before this applies)
 
 
 def vec(name, unit):
